@@ -34,6 +34,10 @@ def auto_discharge(site, fn, T, panic_abort):
         a = site.terms[0] if site.terms else None
         b = site.terms[1] if len(site.terms) > 1 else None
         if m["k"] == "Overflow":
+            if m.get("op") == "Sub" and a is not None and b is not None:
+                g = _guarded_sub(fn, T, site.bb, a, b)
+                if g:
+                    return g
             if m.get("op") == "Add" and _is_unit_counter(fn, T, a, b):
                 return "increment by 1 of a 64-bit local counter that starts at 0 (2^64 increments are infeasible)"
             if is_const(a) and is_const(b):
@@ -145,6 +149,58 @@ def pnames(fn, ty_substr=None, index=None):
 def is_p(t, names):
     """t is a parameter (or a capture of it in the async body / a closure) with one of `names`"""
     return t[0] in ("upvar", "param") and t[-1] in names
+
+
+def _guarded_sub(fn, T, bb, a, b):
+    """`a - b` is dominated by the branch on which a >= b was established (same operand terms, or the newtype wrappers
+    whose `.0` fields are subtracted), and neither operand can change in between."""
+    from engine.mir import CFG
+    if any(x[0] == "var" and len(T.defs.get(x[1], ())) >= 2 for t in (a, b) for x in subterms(t)):
+        return None
+
+    def forms(t):
+        out = [t]
+        if t[0] == "field" and t[2] == "0":
+            out.append(t[1])
+        return out
+    pairs = [(x, y) for x in forms(a) for y in forms(b)]
+    cfg = fn._cache.get("cfg_plain")
+    if cfg is None:
+        cfg = CFG(fn, True)
+        fn._cache["cfg_plain"] = cfg
+    CM = {"std::cmp::PartialOrd::lt": "Lt", "std::cmp::PartialOrd::le": "Le", "std::cmp::PartialOrd::gt": "Gt", "std::cmp::PartialOrd::ge": "Ge"}
+    for sb in range(len(fn.blocks)):
+        si = T.switch_info(sb)
+        if si is None:
+            continue
+        scrut, edges = si
+        neg = False
+        while scrut[0] == "un" and scrut[1] == "Not":
+            neg = not neg
+            scrut = scrut[2]
+        if scrut[0] == "bin" and scrut[1] in ("Lt", "Le", "Gt", "Ge"):
+            op, x, y = scrut[1], scrut[2], scrut[3]
+        elif scrut[0] == "call" and scrut[1] in CM and len(scrut[2]) == 2:
+            op, x, y = CM[scrut[1]], scrut[2][0], scrut[2][1]
+        else:
+            continue
+        want = None   # truth value of the (un-negated) comparison that implies a >= b
+        if (x, y) in pairs:
+            want = {"Ge": True, "Lt": False}.get(op)          # a >= b true / a < b false
+            if op == "Gt":
+                want = True                                  # a > b implies a >= b
+        elif (y, x) in pairs:
+            want = {"Le": True, "Gt": False}.get(op)          # b <= a true / b > a false
+            if op == "Lt":
+                want = True                                  # b < a implies a >= b
+        if want is None:
+            continue
+        if neg:
+            want = not want
+        for tgt, labs in edges.items():
+            if labs == [want] and len(cfg.pred[tgt]) == 1 and cfg.dominates(tgt, bb):
+                return "subtraction guarded by a dominating comparison establishing minuend >= subtrahend"
+    return None
 
 
 def _is_unit_counter(fn, T, a, b):
